@@ -236,7 +236,7 @@ def roundTrips (v : Val) : Bool :=
     key "a" twice prints as `{"a" 1 "a" 2}`, which is read back as the one-entry map `{"a" 2}` -/
 theorem duplicate_keys_do_not_round_trip :
     readableData (.map [("a", .int 1), ("a", .int 2)]) = true ∧
-    roundTrips (.map [("a", .int 1), ("a", .int 2)]) = false := by decide
+    roundTrips (.map [("a", .int 1), ("a", .int 2)]) = false := by decide +kernel
 
 /-- a nested value with hostile strings, a keyword, symbols (one of them a Char token, one with a
     `$`), negative and extreme integers, an empty list, a map and a set -/
@@ -246,13 +246,12 @@ def sample : Val :=
     .list [] none,
     .vec [.map [("k", .vec [.int 7] none), (String.ofList [kwMarker, 'a'], .nil)], .set ["x", "y z"]] none] none
 
-set_option maxRecDepth 100000 in
 theorem sample_readable : readableData sample = true := by
-  rw [Proofs.PrintRead.readableData_eq]; decide
+  rw [Proofs.PrintRead.readableData_eq]; decide +kernel
 
 theorem sample_data : Data sample := by
   refine Data.list (fun x hx => ?_)
-  simp only [sample, List.mem_cons, List.not_mem_nil, or_false] at hx
+  simp only [List.mem_cons, List.not_mem_nil, or_false] at hx
   rcases hx with rfl | rfl | rfl | rfl | rfl | rfl | rfl | rfl | rfl | rfl | rfl | rfl | rfl
   · exact Data.sym _ _
   · exact Data.sym _ _
@@ -283,7 +282,6 @@ example : ∃ v', readStr {} (utf8 (print sample)) = .ok v' ∧ structEqB sample
   print_then_read sample sample_readable sample_data
 
 /-- … and the same round trip by kernel evaluation of the model -/
-set_option maxRecDepth 100000 in
-theorem sample_round_trips : roundTrips sample = true := by decide
+theorem sample_round_trips : roundTrips sample = true := by decide +kernel
 
 end LispModel.Props.C06
